@@ -127,36 +127,97 @@ def b64_encode_rule(rep, mod):
     f = fs[0]
     where = '%s:%d' % (f.file, f.line)
     found = {}
+    dn = {}
+
+    def dem(c):
+        if c not in dn:
+            dn[c] = demangle([c])[0]
+        return dn[c]
+
+    def emissions(b):
+        """characters appended to / stored into the result string by block b, in order: (instruction, value, copies)"""
+        out = []
+        for i in b.insts:
+            if i.op in ('call', 'invoke') and i.callee and 'basic_string' in dem(i.callee):
+                d = dem(i.callee)
+                if '::push_back(' in d or '::operator+=(char)' in d:
+                    out.append((i, i.ops[1], 1))
+                elif '::append(unsigned long, char)' in d and i.ops[1].k == 'ci' and i.ops[1].uval <= 4:
+                    out.append((i, i.ops[2], i.ops[1].uval))
+            elif i.op == 'store' and i.d.get('store_size') == 1:
+                t = f.inst_of(i.ops[1])
+                if t is not None and t.op in ('call', 'invoke') and t.callee and 'basic_string' in dem(t.callee) and \
+                        '::operator[](' in dem(t.callee):
+                    out.append((i, i.ops[0], 1))
+        return out
+
+    def lane_of_load(ld):
+        """byte lane (constant offset from the group's first byte) of an input byte load: pointer walk `dp[k]` or index
+        walk `src[pos + k]`"""
+        r, off = trace_const(f, ld.ops[0])
+        if (r.k == 'inst' and f.insts[r.id].op == 'phi') or r.k == 'arg':
+            return ('p', r.key()), off
+        g = f.inst_of(ld.ops[0])
+        def from_arg(v, depth=0):
+            if v.k == 'arg':
+                return True
+            x = f.inst_of(v)
+            if x is None or depth > 6:
+                return False
+            if x.op in ('bitcast', 'getelementptr'):
+                return from_arg(x.ops[0], depth + 1)
+            if x.op == 'phi':
+                return all(from_arg(o, depth + 1) for o in x.ops if not (o.k == 'inst' and o.id == x.id))
+            return False
+        if g is not None and g.op == 'getelementptr' and from_arg(g.ops[0]):      # the input bytes, not the alphabet table
+            st_ = [x for x in g.d['gep']['steps'] if x['k'] == 'index']
+            if len(st_) == 1 and st_[0]['stride'] == 1 and st_[0]['v'].get('k') == 'inst':
+                x = f.insts[st_[0]['v']['id']]
+                while x.op in ('zext', 'sext'):
+                    x = f.inst_of(x.ops[0])
+                    if x is None:
+                        return None, None
+                if x.op == 'add' and x.ops[1].k == 'ci':
+                    return ('x', x.ops[0].key()), x.ops[1].ival
+                return ('x', ('i', x.id)), 0
+        return None, None
     for b in f.blocks:
-        pushes = [i for i in b.insts if i.op in ('call', 'invoke') and i.callee and 'push_back' in i.callee]
+        pushes = emissions(b)
         if not pushes:
             continue
         ev = BlockEval(f, mod)
-        # byte loads dp[k]: name the symbols by lane
+        # byte loads of the input: name the symbols by lane
         ev.run_block(b)
         lanes = {}      # symbol prefix -> byte lane
+        bases = set()
         for (ld, v) in ev.loads:
             if ld.bits != 8:
                 continue
-            r, off = trace_const(f, ld.ops[0])
-            if (r.k == 'inst' and f.insts[r.id].op == 'phi') or r.k == 'arg':
+            base, off = lane_of_load(ld)
+            if base is not None:
+                bases.add(base)
                 lanes[next(iter(v.bits[0]))[:-1]] = off
+        if len(bases) > 1:
+            continue
         idxs = []
-        for p in pushes:
-            a = p.ops[1]
+        for (p, a, copies) in pushes:
             ai = f.inst_of(a)
             idx = None
-            if ai is not None and ai.op == 'load':
+            if a.k == 'ci':
+                idx = 'pad' if (a.uval & 0xff) == 61 else None
+            elif ai is not None and ai.op == 'load':
                 g = f.inst_of(ai.ops[0])
                 if g is not None and g.op == 'getelementptr':
-                    steps = [s for s in g.d['gep']['steps'] if s['k'] == 'index']
+                    steps = [s_ for s_ in g.d['gep']['steps'] if s_['k'] == 'index']
                     if steps:
                         idx = ev.val(V(steps[-1]['v']))
-            idxs.append(idx)
-        if len(idxs) != 4 or any(not isinstance(x, BV) for x in idxs):
+            idxs += [idx] * copies
+        if len(idxs) != 4 or any(not (isinstance(x, BV) or x == 'pad') for x in idxs):
             continue
         # rename lanes
         def ren(bv):
+            if bv == 'pad':
+                return 'pad'
             out = []
             for bit in bv.bits:
                 acc = frozenset()
@@ -184,12 +245,18 @@ def b64_encode_rule(rep, mod):
     }
     for nl, want in expect.items():
         if nl not in found:
-            rep.inst('R-B64GROUP', 'igris::base64_encode', 'group-of-%d-bytes' % nl, False, where,
-                     'no block emitting 4 characters from %d input byte(s) found' % nl)
-            continue
+            # which groups exist, and that each is used for the right number of remaining bytes, is decided semantically by
+            # c18_len (R-B64ENCLEN); here a missing block only means that the way the characters are emitted is not understood
+            raise AnalysisBroken('base64_encode: no block emitting 4 characters from %d input byte(s) recognised' % nl)
         b, got = found[nl]
         for k in range(4):
             g = got[k]
+            if g == 'pad':
+                # the pad character written as the constant '=' instead of base64_charset[64]
+                ok = want[k] == 'pad'
+                rep.inst('R-B64GROUP', 'igris::base64_encode', 'group-of-%d:char%d' % (nl, k), ok, b.insts[0].where(),
+                         None if ok else 'output character %d of a group of %d input bytes is the pad character' % (k, nl))
+                continue
             if want[k] == 'pad':
                 w = [C if (64 >> j) & 1 else Z for j in range(len(g))]
             else:
@@ -362,14 +429,19 @@ def url_rule(rep, mod):
     e, d = enc[0], dec[0]
     pe, pd = replace_pairs(e), replace_pairs(d)
     want_e = {(ord('+'), ord('-')), (ord('/'), ord('_'))}
-    rep.inst('R-URLPAIR', 'igris::base64url_encode', 'maps +->- and /->_', pe == want_e, '%s:%d' % (e.file, e.line),
-             None if pe == want_e else 'replacement pairs are %s' % sorted((chr(a), chr(b)) for a, b in pe),
-             fact=sorted((chr(a), chr(b)) for a, b in pe))
+    # The character map itself is decided semantically by c18_len (R-URLMAP: every position x every character class on short
+    # texts).  The pairs read off the IR here are a cross-check for the compare-and-store form of the substitution; when
+    # the substitution is written differently (std::replace, a switch, a lookup) no pairs are found and nothing is claimed.
+    if pe:
+        rep.inst('R-URLPAIR', 'igris::base64url_encode', 'maps +->- and /->_', pe == want_e, '%s:%d' % (e.file, e.line),
+                 None if pe == want_e else 'replacement pairs are %s' % sorted((chr(a), chr(b)) for a, b in pe),
+                 fact=sorted((chr(a), chr(b)) for a, b in pe))
     inv = {(b, a) for (a, b) in want_e}
-    rep.inst('R-URLPAIR', 'igris::base64url_decode', 'applies the inverse map -->+ and _->/', pd == inv,
-             '%s:%d' % (d.file, d.line),
-             None if pd == inv else 'replacement pairs are %s; the decoder must undo the encoder map'
-             % sorted((chr(a), chr(b)) for a, b in pd), fact=sorted((chr(a), chr(b)) for a, b in pd))
+    if pd:
+        rep.inst('R-URLPAIR', 'igris::base64url_decode', 'applies the inverse map -->+ and _->/', pd == inv,
+                 '%s:%d' % (d.file, d.line),
+                 None if pd == inv else 'replacement pairs are %s; the decoder must undo the encoder map'
+                 % sorted((chr(a), chr(b)) for a, b in pd), fact=sorted((chr(a), chr(b)) for a, b in pd))
     names = demangle([c.callee for c in d.calls() if c.callee])
     calls_dec = any(n.startswith('igris::base64_decode') for n in names)
     calls_enc = any(n.startswith('igris::base64_encode') for n in names)
@@ -504,4 +576,6 @@ def run(rep, repo, tier):
     rep.floor('R-LANES', 30)
     rep.floor('R-HEXBUF:bounds', 4)
     rep.floor('R-B64GROUP', 12)
-    rep.floor('R-URLPAIR', 4)
+    rep.floor('R-URLPAIR', 2)
+    import c18_len
+    c18_len.run_ext(rep, repo, tier)
